@@ -46,6 +46,10 @@ def main():
         common.import_sut()
         common.patch_sleep()
         mod = importlib.import_module(f"vf.{pid.lower()}")
+        import gc
+
+        gc.collect()
+        gc.freeze()  # everything imported so far (numba, hypothesis, the harness) stays out of later collections
     except BaseException:
         traceback.print_exc()
         print(f"HARNESS-ERROR property={pid} (setup)")
